@@ -414,11 +414,21 @@ pub fn counter_lines(ctx: &Ctx) -> Option<Report> {
     let runs = ctx.share(ctx.n(320, 10_000));
     for k in 0..runs {
         let len = 5 + r.below(200) as usize;
-        let stream = mixed_stream(&mut r, len, false);
+        // every second stream also carries formats outside the nine (correct length, non-zero address under both the
+        // AA and the AP reading): they are accepted frames and are counted under their DF like any other
+        let with_other = k % 2 == 1;
+        let stream = mixed_stream(&mut r, len, with_other);
         let filter: Option<Vec<u32>> = match k % 3 {
             0 => None,
             1 => Some(vec![*r.pick(&FORMATS)]),
-            _ => Some(FORMATS.iter().copied().filter(|_| r.chance(1, 2)).chain(std::iter::once(17)).collect()),
+            _ => {
+                let mut f: Vec<u32> = FORMATS.iter().copied().filter(|_| r.chance(1, 2)).collect();
+                f.push(17);
+                if with_other {
+                    f.push(*r.pick(&[19u32, 24, 31, 2, 13]));
+                }
+                Some(f)
+            }
         };
         let counting = k % 5 != 4;
         let opts = Opts { u: r.chance(1, 2), filter: filter.clone(), count: counting, delete_after: 600, update: -1, display: vec![r.pick(&["", "aAews", "e"]).to_string()], ..Default::default() };
@@ -464,8 +474,20 @@ pub fn counter_lines(ctx: &Ctx) -> Option<Report> {
                 if rep.want_sample() {
                     rep.sample(J::obj().with("cli_args", J::s(cli_args(&opts, "<stream>").join(" "))).with("stream_lines", J::i(lines.len() as u64)).with("expected_counter_line", J::s(&want_line)).with("observed", J::s(format!("{:?}", got))));
                 }
+                // the extended-length formats: a decoder may report the 5-bit values 24..31 separately (as the line
+                // rule C02 speaks of DF 0..31) or all under DF24 (the standard's two-bit '11' prefix); both are accepted
+                let merged_line: String = {
+                    let mut m: std::collections::BTreeMap<u32, u64> = std::collections::BTreeMap::new();
+                    for (d, n) in want.iter() {
+                        *m.entry(if *d >= 24 { 24 } else { *d }).or_insert(0) += *n;
+                    }
+                    m.iter().filter(|(_, n)| **n > 0).map(|(d, n)| format!("DF{}:{}", d, n)).collect::<Vec<_>>().join(" ")
+                };
+                if with_other {
+                    rep.count("counter_lines_with_formats_outside_the_nine", counting as i64);
+                }
                 if counting {
-                    if got.as_deref() != Some(want_line.as_str()) {
+                    if got.as_deref() != Some(want_line.as_str()) && got.as_deref() != Some(merged_line.as_str()) {
                         rep.violation(
                             "counter-line",
                             format!("{} want {}", opts.describe(), want_line),
